@@ -55,10 +55,10 @@ def build_extr(seq, frame=0):
 
 # ---------------------------------------------------------------- inclusion
 
-FILES = ['a', 'b', 'c']
+FILES = ['a', 'b', 'c.1']      # a base name may contain a dot: '.tex' is still added
 LISTS = [()] + [(x,) for x in FILES] + [(x, y) for x in FILES for y in FILES]      # 13 ordered lists of 0-2 targets
 STARTS = [['a.tex'], ['a.tex', 'b.tex'], ['b.tex', 'a.tex', 'a.tex']]
-SKIPS = [None, 'b.*', 'c\\.tex']
+SKIPS = [None, 'b.*', 'c\\.1\\.tex']
 # spelling of an inclusion (thorough): macro and whether '.tex' is written
 SPELL = [('\\input{%s}', False), ('\\include{%s}', False), ('\\input{%s.tex}', True)]
 
